@@ -193,6 +193,9 @@ func C01(p *an.Prog, r *an.Report) {
 		}
 	}
 	c01Order(p, r, pairs)
+	c02SigTypeSource(p, r, "C01.R7")
+	c01NoReorder(p, r)
+	c01DistinctElements(p, r, "C01.R9")
 	c01Block(p, r, "C01.R5")
 	c11Threshold(p, r) // R6 (same rule as C11.M5)
 }
@@ -556,6 +559,8 @@ func c01Block(p *an.Prog, r *an.Report, rule string) {
 			continue
 		}
 		var rng []kacRange
+		var rngAt []*ssa.Slice
+		bnd := an.NewBounds(p)
 		clos := p.Reachable(p.CG(), []*ssa.Function{root}, func(f *ssa.Function) bool { return an.FnPkgPath(f) == an.ModPath+"/keys_and_cert" })
 		// calling contexts restricted to this entry point's closure
 		rcallers := map[*ssa.Function][]*ssa.Call{}
@@ -593,8 +598,26 @@ func c01Block(p *an.Prog, r *an.Report, rule string) {
 						continue
 					}
 					rng = append(rng, kacRange{lo, hi, p.Pos(s.Pos()), an.FnKey(fn)})
+					rngAt = append(rngAt, s)
 				}
 			}
+		}
+		// reachable(d, P, S): the branch conditions that dominate the slice are satisfiable when the
+		// enclosing function's integer parameters take the values they have for this size pair
+		reachable := func(i int, env map[string]int64) bool {
+			s := rngAt[i]
+			fn := s.Parent()
+			facts := append([]an.Fact{}, bnd.FactsAt(s.Block(), an.InstrIndex(s))...)
+			for _, prm := range fn.Params {
+				if !isIntegerType(prm.Type()) {
+					continue
+				}
+				if v, ok := evalAffine(an.AffineOf(prm, atom), env); ok {
+					t := an.LinTerm(an.Term{K: an.TermKeyOf(prm)})
+					facts = append(facts, an.Fact{L: t.Add(an.LinConst(v), -1)}, an.Fact{L: an.LinConst(v).Add(t, -1)})
+				}
+			}
+			return !bnd.Inconsistent(facts)
 		}
 		prs := pairs
 		switch name {
@@ -607,7 +630,10 @@ func c01Block(p *an.Prog, r *an.Report, rule string) {
 		for _, pr := range prs {
 			env := map[string]int64{"P": pr[0], "S": pr[1]}
 			got := map[string]bool{}
-			for _, d := range rng {
+			for di, d := range rng {
+				if !reachable(di, env) {
+					continue // guarded out for this size pair
+				}
 				lo, ok1 := evalAffine(d.lo, env)
 				// windows to the end of the input have hi = len(data)
 				hiA := d.hi
@@ -642,6 +668,22 @@ func c01Block(p *an.Prog, r *an.Report, rule string) {
 			if !okPub {
 				bad = append(bad, fmt.Sprintf("P=%d S=%d: the crypto key is not read from the start of the block", pr[0], pr[1]))
 			}
+			// the certificate is parsed from everything after the block: its own length field, not a
+			// fixed window, decides where it ends (all readers must agree on this)
+			if !got["[384,end)"] {
+				bad = append(bad, fmt.Sprintf("P=%d S=%d: the certificate is not parsed from data[384:] (unbounded)", pr[0], pr[1]))
+			}
+			for g := range got {
+				var lo, hi int64
+				if n, _ := fmt.Sscanf(g, "[%d,%d)", &lo, &hi); n == 2 && lo >= 384 && hi > lo {
+					bad = append(bad, fmt.Sprintf("P=%d S=%d: fixed window %s after the key block (certificates may be longer than 7 bytes)", pr[0], pr[1], g))
+				}
+				if strings.HasSuffix(g, ",end)") {
+					if n, _ := fmt.Sscanf(g, "[%d,end)", &lo); n == 1 && lo > 384 {
+						bad = append(bad, fmt.Sprintf("P=%d S=%d: the input is cut at the fixed offset %d after the key block (the remainder must be what the certificate parser leaves)", pr[0], pr[1], lo))
+					}
+				}
+			}
 		}
 		bad = dedupe(bad, 8)
 		var forms []string
@@ -673,4 +715,129 @@ func dedupe(s []string, max int) []string {
 		out = append(out[:max], fmt.Sprintf("… %d more", len(out)-max))
 	}
 	return out
+}
+
+// c01NoReorder (R8): re-serialisation can only reproduce the consumed bytes if the serializer emits
+// what the parser stored, in stored order. No serializer of a wire structure — nor the signed-data
+// serializers — may therefore reach a sorting routine or rebuild a mapping from its values (both
+// reorder unsorted-but-accepted input). Canary: data.ValuesToMapping must itself be recognised as
+// reaching a sort.
+func c01NoReorder(p *an.Prog, r *an.Report) {
+	sorts := func(f *ssa.Function) []string {
+		var out []string
+		for _, blk := range f.Blocks {
+			for _, in := range blk.Instrs {
+				c, ok := in.(ssa.CallInstruction)
+				if !ok {
+					continue
+				}
+				callee := c.Common().StaticCallee()
+				if callee == nil {
+					continue
+				}
+				if an.FnPkgPath(callee) == "sort" || an.FnPkgPath(callee) == "slices" && strings.HasPrefix(callee.Name(), "Sort") {
+					out = append(out, an.FnKey(callee)+" at "+p.Pos(c.Pos()))
+				}
+			}
+		}
+		return out
+	}
+	reachSort := func(root *ssa.Function) []string {
+		var hits []string
+		clos := p.Reachable(p.CG(), []*ssa.Function{root}, func(f *ssa.Function) bool { return an.InLib(f) })
+		for f, path := range clos {
+			if !an.InLib(f) {
+				continue
+			}
+			for _, h := range sorts(f) {
+				hits = append(hits, h+" via "+an.PathString(path))
+			}
+		}
+		sort.Strings(hits)
+		return hits
+	}
+	if vtm := p.Func("data.ValuesToMapping"); vtm == nil || len(reachSort(vtm)) == 0 {
+		r.Fail("C01.R8 canary: data.ValuesToMapping is not recognised as reaching a sort")
+	}
+	n := 0
+	for _, wp := range wirePairs(p) {
+		if wp.ser == nil {
+			continue
+		}
+		n++
+		hits := reachSort(wp.ser)
+		r.Check(len(hits) == 0, "C01.R8", wp.key+"/serializer-keeps-order", p.FnPos(wp.ser), "the serializer emits the stored fields without sorting or rebuilding them (unsorted but accepted input re-serialises to itself)", dedupe(hits, 4)...)
+	}
+	if n < 10 {
+		r.Fail("C01.R8: only %d serializers examined", n)
+	}
+}
+
+// c01DistinctElements: inside a loop, a pointer that is appended to (or stored into an element of)
+// a slice must point to an object allocated in that iteration. Appending the address of a variable
+// allocated outside the loop and re-assigned inside it makes every element alias the last value:
+// a parsed list of N elements then serialises as N copies of the last one.
+func c01DistinctElements(p *an.Prog, r *an.Report, rule string) {
+	n := 0
+	var bad []string
+	for _, fn := range p.RepoFns {
+		if !an.InLib(fn) || len(fn.Blocks) == 0 {
+			continue
+		}
+		for _, li := range naturalLoops(fn) {
+			for blk := range li.body {
+				for _, in := range blk.Instrs {
+					var ptrs []ssa.Value
+					switch x := in.(type) {
+					case *ssa.Call:
+						if isBuiltin(x, "append") && len(x.Call.Args) == 2 {
+							// the variadic tail is a slice of a fresh array whose elements are stored just before
+							if sl, ok := x.Call.Args[1].(*ssa.Slice); ok {
+								if arr, ok := sl.X.(*ssa.Alloc); ok {
+									for _, ref := range *arr.Referrers() {
+										if ia, ok := ref.(*ssa.IndexAddr); ok {
+											for _, r2 := range *ia.Referrers() {
+												if st, ok := r2.(*ssa.Store); ok && st.Addr == ssa.Value(ia) {
+													ptrs = append(ptrs, st.Val)
+												}
+											}
+										}
+									}
+								}
+							}
+						}
+					case *ssa.Store:
+						if _, ok := x.Addr.(*ssa.IndexAddr); ok {
+							ptrs = append(ptrs, x.Val)
+						}
+					}
+					for _, v := range ptrs {
+						al, ok := v.(*ssa.Alloc)
+						if !ok {
+							continue
+						}
+						if _, isPtr := al.Type().Underlying().(*types.Pointer); !isPtr {
+							continue
+						}
+						n++
+						if li.body[al.Block()] {
+							continue // allocated per iteration
+						}
+						// allocated once outside the loop: is it written inside the loop?
+						written := false
+						for _, ref := range *al.Referrers() {
+							if st, ok := ref.(*ssa.Store); ok && st.Addr == ssa.Value(al) && li.body[st.Block()] {
+								written = true
+							}
+						}
+						if written {
+							bad = append(bad, fmt.Sprintf("%s: the address of %s (allocated once outside the loop, re-assigned inside it) is kept per element at %s: all elements alias the last value", an.FnKey(fn), al.Comment, p.Pos(in.Pos())))
+						}
+					}
+				}
+			}
+		}
+	}
+	r.Analysed["per-element pointer stores in loops"] = n
+	r.Check(len(bad) == 0 && n > 0, rule, "loops/distinct-elements", "", fmt.Sprintf("every pointer kept per loop iteration (%d sites) refers to an object of that iteration", n), bad...)
 }
